@@ -719,6 +719,138 @@ func (sc *scenario) hookFor() *hookProgram {
 	return &sc.Hook
 }
 
+// rollout: a rolling strategy, a spec change, and a fair (or not so fair) environment
+func (g *gen) rollout(i int, seed uint64, fair bool) *scenario {
+	r := g.r
+	sc := &scenario{Seed: seed, Family: "rollout"}
+	namespaced := r.Chance(2, 3)
+	ctl := ctlSpec{Name: fmt.Sprintf("rc%d", i%5), ParentAPIVersion: "ctl.example.com/v1", ParentNamespaced: namespaced,
+		GenSelector: r.Chance(1, 2), Finalize: r.Chance(1, 5)}
+	if namespaced {
+		ctl.ParentResource, ctl.ParentKind = "things", "Thing"
+	} else {
+		ctl.ParentResource, ctl.ParentKind = "clusterthings", "ClusterThing"
+	}
+	kid := kidPool[r.Intn(2)]
+	kid.Method = []string{"RollingInPlace", "RollingRecreate"}[r.Intn(2)]
+	ready := "True"
+	if r.Chance(1, 2) {
+		kid.Checks = []condCheck{{Type: "Ready", Status: &ready}}
+	}
+	ctl.Kids = []kidSpec{kid}
+	if r.Chance(1, 4) {
+		k2 := kidPool[1-indexOfKid(kid)]
+		k2.Method = plainMethods[r.Intn(len(plainMethods))]
+		ctl.Kids = append(ctl.Kids, k2)
+	}
+	if r.Chance(1, 3) {
+		ctl.FieldPaths = []string{"spec.image", "spec.replicas"}
+	}
+	sc.Ctl = ctl
+	app := "roll"
+	pns := ""
+	if namespaced {
+		pns = "ns1"
+	}
+	pmd := J{"name": "p1"}
+	if namespaced {
+		pmd["namespace"] = pns
+	}
+	nrep := int64(1 + r.Intn(4))
+	sc.Parent = J{"apiVersion": ctl.ParentAPIVersion, "kind": ctl.ParentKind, "metadata": pmd,
+		"spec": J{"selector": J{"matchLabels": J{"app": app}}, "replicas": nrep, "image": "v1",
+			"template": J{"metadata": J{"labels": J{"app": app}}}}}
+	tmd := J{"name": "c", "labels": J{"app": app}}
+	if !namespaced && kid.Namespaced {
+		tmd["namespace"] = "ns2"
+	}
+	sc.Hook = hookProgram{Kind: "template", Children: []J{{"apiVersion": kid.APIVersion, "kind": kid.Kind, "metadata": tmd, "spec": J{}}}}
+	switch r.Intn(4) {
+	case 0:
+		sc.Hook.OmitStatus = true
+	case 1:
+		sc.Hook.Status = J{"conditions": A{J{"type": "Updated", "status": "Unknown"}, J{"type": "Ready", "status": "True"}}}
+	}
+	sc.Warmup = true
+	// after the warm-up: everything healthy, then the spec changes
+	healthy := extOp{Op: "healthy-all", APIVersion: kid.APIVersion, Kind: kid.Kind}
+	if r.Chance(1, 4) {
+		healthy.Data = J{"noObservedGeneration": true}
+	}
+	sc.Setup = []extOp{healthy}
+	pref := sc.parentRef()
+	edit := func(image string, replicas int64, note string) extOp {
+		e := pref
+		e.Op = "edit"
+		spec := runtime.DeepCopyJSON(sc.Parent["spec"].(J))
+		spec["image"], spec["replicas"] = image, replicas
+		if note != "" {
+			spec["note"] = note
+		}
+		e.Data = J{"spec": spec}
+		return e
+	}
+	sc.Setup = append(sc.Setup, edit("v2", nrep, ""))
+	nr := int(2*nrep) + 3
+	for j := 0; j < nr; j++ {
+		rs := roundSpec{}
+		if fair || r.Chance(2, 3) {
+			rs.PreOps = append(rs.PreOps, healthy)
+		} else {
+			sc.Features = append(sc.Features, "unhealthy-step")
+		}
+		if !fair {
+			switch r.Intn(10) {
+			case 0: // a child disappears
+				ns := pns
+				if !namespaced {
+					ns = "ns2"
+				}
+				if !kid.Namespaced {
+					ns = ""
+				}
+				rs.PreOps = append(rs.PreOps, extOp{Op: "delete", APIVersion: kid.APIVersion, Kind: kid.Kind, Namespace: ns, Name: fmt.Sprintf("c%d", r.Intn(int(nrep)))})
+				sc.Features = append(sc.Features, "child-deleted-mid-rollout")
+			case 1:
+				rs.PreOps = append(rs.PreOps, edit("v2", nrep+1, ""))
+				sc.Features = append(sc.Features, "scale-up-mid-rollout")
+			case 2:
+				if nrep > 1 {
+					rs.PreOps = append(rs.PreOps, edit("v2", nrep-1, ""))
+					sc.Features = append(sc.Features, "scale-down-mid-rollout")
+				}
+			case 3:
+				rs.PreOps = append(rs.PreOps, edit("v3", nrep, ""))
+				sc.Features = append(sc.Features, "second-spec-change")
+			case 4:
+				rs.PreOps = append(rs.PreOps, edit("v2", nrep, "hello"))
+				sc.Features = append(sc.Features, "non-revisioned-edit")
+			}
+		}
+		sc.Rounds = append(sc.Rounds, rs)
+	}
+	if fair {
+		sc.Features = append(sc.Features, "fair")
+	}
+	sc.Features = append(sc.Features, "method-"+kid.Method)
+	if ctl.GenSelector {
+		sc.Features = append(sc.Features, "generate-selector")
+	}
+	if !namespaced {
+		sc.Features = append(sc.Features, "cluster-scoped-parent")
+	}
+	return sc
+}
+
+func indexOfKid(k kidSpec) int {
+	for i, p := range kidPool {
+		if p.Resource == k.Resource {
+			return i
+		}
+	}
+	return 0
+}
+
 func generateScenarios(prop string, seed uint64, n int, adv bool) []*scenario {
 	root := vh.NewRng(seed ^ 0xc0de)
 	var out []*scenario
@@ -734,6 +866,10 @@ func generateScenarios(prop string, seed uint64, n int, adv bool) []*scenario {
 			out = append(out, g.lifecycle(i, s))
 		case prop == "C11" && i%4 != 0:
 			out = append(out, g.statusy(i, s))
+		case prop == "C07":
+			out = append(out, g.rollout(i, s, i%3 == 0))
+		case prop == "C08":
+			out = append(out, g.rollout(i, s, true))
 		case prop == "C12" && i%6 != 0:
 			out = append(out, g.faulty(i, s))
 		case prop == "C13" && i%8 != 0:
